@@ -27,7 +27,8 @@ theorem condense_mass_label_plain (env : Pept.Env) (mono : Bool) (dl : Mod → O
   have hres : ∀ c, condenseStatic a = .ok c → ∀ m ∈ allMods c, isBad (envOf env mono) m = false :=
     fun c _ m _ => isBad_of_resolve env mono Mass.ionP 0 dl cp _ hmods m
   obtain ⟨c, s, x, hc, hs, hn', hx, hb⟩ :=
-    condense_mass_label_resolved env mono a n p m0 L lm δ hclose hpl.isotope hl hr hint hres h
+    condense_mass_label_resolved env mono a n p m0 L lm δ hclose hpl.isotope hl hr hint hres
+      (absentRuleBad_static_none _ a hpl.static) h
   obtain ⟨X, hX1, hX2⟩ := mass_bridge_label_precursor env mono dl cp a (m0 :: L) 0 hL hpl hseq hmods hsm
   have : X = x := by
     have h1 : massOf (envOf env mono) a = massLabel (envOf env mono) a := by simp [massOf, hpl.isotope]
